@@ -65,6 +65,11 @@ std::vector<CheckDef>& check_table()
 		  "duplicate groups of 2-4 files across disks, the same path on several disks, files with zero sub-second stamps, a pool directory pre-populated with stale links, empty directories and foreign files, with and without a share prefix. "
 		  "list = recorded files/links with size and stamp (names compared after inverting the tag escaping); status counters and named files = decoded state; dup pairs = exactly the content-equality partition of non-empty fully hashed files computed from the harness copy (hash size 16, no migration); "
 		  "pool tree = exactly one symlink per recorded file/link (first disk wins) with the right target, stale links and empty dirs gone, foreign files kept. Non-trivial = every recorded state judged; distinct = distinct content files" },
+		{ "C19", "exploration", { { "decoy", 3000, 60000 } },
+		  "decoys (same base name or same path on another disk, same size and time-stamp as a fully or partially hashed recorded file, other bytes: all random / one byte / only the last block) and honest cp -p copies appear on the same or other disks, with zero and non-zero sub-second stamps; "
+		  "then sync plain / -h / -N / -B partial / killed after the parity update / single-threaded, repeated. Judged: the reference hash of every block recorded as synced equals the recorded hash and the independent parity oracle holds after every command; a decoy that the scan took for a copy is reported and fails the sync (complete syncs), "
+		  "--force-nocopy inherits nothing, with --pre-hash the parity is not modified. Second half: a recorded file is lost while decoys sit on other disks and in an import directory (-i and --test-import-content; right name/size/stamp with wrong bytes, all-but-last-block right, honest copy under another name), parity possibly lost too, "
+		  "then fix/check: the file gets exactly its recorded bytes or is reported unrecoverable (the C05 oracle, reported under C19). Non-trivial = a sync in which a decoy was taken for a copy, or a fix that judged a file" },
 		{ "C06", "exploration", { { "parity-inv", 4000, 80000 }, { "crash", 16, 400 } },
 		  "seeded histories of file-system changes interleaved with sync variants/scrub/fix/touch/rehash/check under seeded schedules; the independent parity oracle runs after every command. "
 		  "A run is non-trivial when at least one fully synced stripe was compared with parity and >= 3 commands ran; distinct = distinct (config, op sequence) hashes" },
